@@ -487,6 +487,10 @@ func (d *DataRow) GetCustomVarValue(col *Column, name string) string {
 		return ref.GetCustomVarValue(col.RefCol, name)
 	}
 	namesCol := d.dataStore.GetColumn("custom_variable_names")
+	if namesCol.Optional != NoFlags && !d.dataStore.peer.HasFlag(namesCol.Optional) {
+		// backend does not provide custom variables for this table, ex.: contacts on non-naemon backends
+		return ""
+	}
 	names := d.dataStringList[namesCol.Index]
 	for idx, n := range names {
 		if n != name {
@@ -704,6 +708,9 @@ func VirtualColDowntimesWithInfo(_ *Peer, row *DataRow, _ *Column) interface{} {
 func VirtualColCustomVariables(_ *Peer, row *DataRow, _ *Column) interface{} {
 	namesCol := row.dataStore.GetColumn("custom_variable_names")
 	valuesCol := row.dataStore.GetColumn("custom_variable_values")
+	if namesCol.Optional != NoFlags && !row.dataStore.peer.HasFlag(namesCol.Optional) {
+		return emptyStringMap
+	}
 	names := row.dataStringList[namesCol.Index]
 	values := row.dataStringList[valuesCol.Index]
 	res := make(map[string]string, len(names))
